@@ -158,3 +158,123 @@ func verifH_C09_legacy() { verifC09(5) }
 
 //verif:harness id=C09 tier=thorough witness=end bounds="as quick with request paths of up to 7 bytes"
 func verifH_C09_legacy7() { verifC09(7) }
+
+// verifC09Servers: the legacy router under declared servers. The path after the request base is
+// symbolic; scheme, host and base are chosen by the explorer.
+func verifC09Servers(maxLen int) {
+	fam := verifChoose("family", len(verifFamilies))
+	templates := verifFamilies[fam]
+	doc, ops := verifDoc(templates, verifChoose("postOn", len(templates)))
+	sv := 1 + verifChoose("servers", 3)
+	switch sv {
+	case 1:
+		doc.Servers = openapi3.Servers{{URL: "/v1"}}
+	case 2:
+		doc.Servers = openapi3.Servers{{URL: "https://h.example/v1"}}
+	case 3:
+		doc.Servers = openapi3.Servers{{URL: "https://h.example/{b}", Variables: map[string]*openapi3.ServerVariable{"b": {Default: "v1"}}}}
+	}
+	router, err := NewRouter(doc)
+	if err != nil {
+		return
+	}
+	n := 1 + verifChoose("plen", maxLen)
+	bs := make([]byte, n)
+	bs[0] = '/'
+	for i := 1; i < n; i++ {
+		bs[i] = verifNondetByteIn("p", "/abc")
+	}
+	path := string(bs)
+	method := []string{"GET", "POST", "PUT"}[verifChoose("method", 3)]
+	reqBase := []string{"", "/v1", "/v2"}[verifChoose("reqBase", 3)]
+	u := &url.URL{Path: reqBase + path}
+	hostOK := true
+	if sv >= 2 {
+		switch verifChoose("reqOrigin", 3) {
+		case 0:
+			u.Scheme, u.Host = "https", "h.example"
+		case 1:
+			u.Scheme, u.Host, hostOK = "https", "other.example", false
+		case 2:
+			u.Scheme, u.Host, hostOK = "http", "h.example", false
+		}
+	}
+	route, params, ferr := router.FindRoute(&http.Request{Method: method, URL: u})
+
+	serverOK, rest := false, ""
+	var serverVars map[string]string
+	switch sv {
+	case 1, 2:
+		serverOK = hostOK && reqBase == "/v1"
+		rest = path
+	case 3:
+		// "/" + value of b + rest: with a request base the variable is the base, without one the
+		// first segment of the symbolic path (concrete split points only: handled by the base cases)
+		if reqBase != "" {
+			serverOK, rest = hostOK, path
+			serverVars = map[string]string{"b": reqBase[1:]}
+		}
+	}
+	if sv == 3 && reqBase == "" {
+		verifReach("end")
+		return // the variable would be cut out of symbolic bytes: covered by the explicit request bases
+	}
+	var matching []string
+	literal := ""
+	if serverOK {
+		for _, t := range templates {
+			if _, ok := verifRefMatch(t, rest); ok && ops[t][method] != nil {
+				matching = append(matching, t)
+				if len(verifVars(t)) == 0 {
+					literal = t
+				}
+			}
+		}
+	}
+	emptyBinding := false
+	for _, v := range params {
+		if v == "" {
+			emptyBinding = true
+		}
+	}
+	verifKnown("C09-legacy-empty-binding", ferr == nil && route != nil && emptyBinding)
+	if ferr != nil {
+		_, isRouteErr := ferr.(*routers.RouteError)
+		verifAssert(isRouteErr, "C09 servers: a request that is not routed yields a RouteError")
+		verifAssert(len(matching) == 0, "C09 servers complete: every path obtained by filling a declared template under a declared server and method is routed")
+		verifReach("end")
+		return
+	}
+	verifAssert(route != nil, "C09 servers: FindRoute returns a route or an error")
+	if route == nil {
+		return
+	}
+	verifAssert(serverOK, "C09 servers: a URL under no declared server is not routed")
+	want, ok := verifRefMatch(route.Path, rest)
+	verifAssert(ok, "C09 servers sound: the returned route's template matches the request path after the server's base path")
+	verifAssert(route.Operation != nil && route.Operation == ops[route.Path][method], "C09 servers sound: the returned operation is the one declared for the method under the returned template")
+	if ok {
+		same := true
+		for k, v := range want {
+			if params[k] != v {
+				same = false
+			}
+		}
+		for k, v := range serverVars {
+			if params[k] != v {
+				same = false
+			}
+		}
+		verifAssert(same && len(params) == len(want)+len(serverVars), "C09 servers sound: substituting the returned parameters into server base and template reproduces the request path")
+	}
+	if literal != "" {
+		verifAssert(route.Path == literal, "C09 servers priority: a literal path wins over a templated one")
+	}
+	verifReach("end")
+}
+
+//verif:harness id=C09 tier=quick witness=end bounds="legacy router under servers in {/v1, https://h.example/v1, https://h.example/{b}} x request base in {none,/v1,/v2} x origin in {https://h.example, other host, http} x 5 template families x GET/POST/PUT x every path '/'+ up to 3 symbolic bytes over {/,a,b,c} after the base"
+func verifH_C09_legacy_servers() { verifC09Servers(4) }
+
+//verif:harness id=C09 tier=thorough witness=end bounds="as quick with paths of up to 5 bytes"
+func verifH_C09_legacy_servers5() { verifC09Servers(6) }
